@@ -22,7 +22,7 @@ var rec = vh.NewRecorder("C12", "call-histories",
 		"session table giving the allowed status set per call, every call answered (no panic, no call left unanswered for 15 s), backend "+
 		"observes a client close, polls after a backend close deliver the queued messages and then 400; non-trivial = a concurrent group "+
 		"containing a close, or a backend close with queued messages; distinct = SHA-256 of the history"+
-		" Later additions: messages of odd shapes, backend closes with and without immediate polling, a slow-failing open overlapping a successful one (ids of open sessions must stay unique), sessions whose backend never reads (the close call must still close the backend connection within 10 s); one fixed scenario in the background of every run: an open call whose backend takes the upgrade request and never answers it must be answered within 60 s, other opens meanwhile unaffected.")
+		" Later additions: messages of odd shapes, backend closes with and without immediate polling, a slow-failing open overlapping a successful one (ids of open sessions must stay unique), sessions whose backend never reads (the close call must still close the backend connection within 10 s); one fixed scenario in the background of every run: an open call whose backend takes the upgrade request and never answers it must be answered within 100 s (the backend stays silent for 150 s; the unchanged code gives up after 45 s), other opens meanwhile unaffected.")
 
 func TestMain(m *testing.M) { vh.Main(m, rec) }
 
@@ -545,7 +545,7 @@ func TestPropCallHistories(t *testing.T) {
 			start := time.Now()
 			done := make(chan shimrig.Result, 1)
 			go func() {
-				done <- hr.Call("POST", hr.ShimPath+"/open", []byte("ws://backend.example/hang/c12"), http.Header{"X-Websocket-Shim-Version": {"1"}}, 60*time.Second)
+				done <- hr.Call("POST", hr.ShimPath+"/open", []byte("ws://backend.example/hang/c12"), http.Header{"X-Websocket-Shim-Version": {"1"}}, 100*time.Second)
 			}()
 			time.Sleep(500 * time.Millisecond)
 			if id, bc, res := hr.Open("/ws/c12-beside-the-hung-open", 1, nil, callTimeout); res.Status != 200 || bc == nil {
@@ -572,7 +572,7 @@ func TestPropCallHistories(t *testing.T) {
 			select {
 			case o := <-hung:
 				return o
-			case <-time.After(90 * time.Second):
+			case <-time.After(180 * time.Second):
 				return vh.Outcome{Inconclusive: "the background scenario did not finish"}
 			}
 		})
